@@ -154,6 +154,45 @@ func (st *State) rtypeMethod(name string, rt RType, args []Value) Value {
 		fld := s.Field(i)
 		return st.structFieldValue(fld, fieldOffsets(s)[i], i)
 	}
+	if name == "FieldByName" {
+		s, ok := t.Underlying().(*types.Struct)
+		if !ok {
+			st.throw(Iface{T: types.Typ[types.String], V: Str("reflect: FieldByName of non-struct type " + t.String())})
+		}
+		fname, isStr := args[0].(Str)
+		if !isStr {
+			st.fail("reflect.Type.FieldByName with a non-constant name")
+			abort()
+		}
+		// Go selector rules (depth-first shallowest match through embedded fields,
+		// ambiguity = not found) are what reflect.FieldByName implements.
+		var pkg *types.Package
+		if n, isNamed := t.(*types.Named); isNamed {
+			pkg = n.Obj().Pkg()
+		}
+		obj, index, _ := types.LookupFieldOrMethod(t, false, pkg, string(fname))
+		fld, isVar := obj.(*types.Var)
+		if !isVar || !fld.IsField() {
+			zero := st.structFieldValue(types.NewField(0, nil, "", types.Typ[types.Invalid], false), 0, 0)
+			zs := zero.(Struct)
+			for i := 0; i < structFieldType.NumFields(); i++ {
+				if structFieldType.Field(i).Name() == "Type" {
+					zs[i] = Iface{}
+				}
+			}
+			return Tuple{zs, B(false)}
+		}
+		cur := s
+		for _, ix := range index[:len(index)-1] {
+			ft := cur.Field(ix).Type()
+			if p, isP := ft.Underlying().(*types.Pointer); isP {
+				ft = p.Elem()
+			}
+			cur = ft.Underlying().(*types.Struct)
+		}
+		last := index[len(index)-1]
+		return Tuple{st.structFieldValue(fld, fieldOffsets(cur)[last], last), B(true)}
+	}
 	st.fail("unsupported reflect.Type method " + name)
 	abort()
 	return nil
